@@ -373,7 +373,7 @@ func genLZBoundary(n int, seed uint64) []byte {
 
 var shapeNames = []string{"text", "crlf", "xml", "utf8-2", "utf8-3", "utf8-4", "utf8-wide", "utf8-dense", "dna", "dna-mixed", "base64", "hex", "numeric",
 	"elf", "pe", "wav8m", "wav16s", "bmp", "runs", "sparse", "skew1", "skew3", "const", "random", "zipmagic", "period3", "period255", "period65535",
-	"rot256", "fib", "raredom", "lzbound", "mixed", "longlit", "allruns", "rarerun", "zipmagic-text", "crlf-records", "sym4", "sym5", "sym16", "sym17", "wav24", "longrep", "gaps", "textwords", "crlf-cut", "dominant"}
+	"rot256", "fib", "raredom", "lzbound", "mixed", "longlit", "allruns", "rarerun", "zipmagic-text", "crlf-records", "sym4", "sym5", "sym16", "sym17", "wav24", "longrep", "gaps", "textwords", "crlf-cut", "dominant", "bmtext"}
 
 // a smaller set for the expensive products
 var coreShapes = []string{"text", "utf8-3", "utf8-wide", "utf8-dense", "dna", "elf", "wav16s", "runs", "sparse", "skew3", "const", "random", "rot256", "lzbound", "period255", "mixed", "longlit", "allruns", "rarerun", "crlf-records", "crlf-cut"}
@@ -537,6 +537,11 @@ func shape(name string, n int) []byte {
 		// starts with the signature of an already-compressed format, the rest is compressible text
 		out := genText(n, seed, "\n")
 		copy(out, []byte{'P', 'K', 3, 4, 20, 0, 0, 0})
+		return out
+	case "bmtext":
+		// English text that happens to start with the two-letter signature of a bitmap file
+		out := genText(n, seed, "\n")
+		copy(out, "BMW ")
 		return out
 	case "dominant":
 		// three quarters of the block are one byte value (0), the rest is random: symbol counts beyond
